@@ -119,10 +119,14 @@ def selClass (c : TCtx) (sel : Option String) : Option ClassInfo :=
   | some kl => c.cls kl
   | none => none
 
-def attrTy (cls : Option ClassInfo) (a : String) : Ty :=
+/-- `accept_FieldAccessNode` once the class of the root is known (or not): an attribute of that class (V_AVL, its
+    declared type); with no class, the name `length` is the length of an array (V_ALV, integer) -/
+def fieldRow (cls : Option ClassInfo) (a : String) : String × Ty :=
   match cls with
-  | some ci => ci.attrs.lookup a
-  | none => none
+  | some ci => ("V_AVL", ci.attrs.lookup a)
+  | none => if a == "length" then ("V_ALV", some "integer") else ("V_AVL", none)
+
+def attrTy (cls : Option ClassInfo) (a : String) : Ty := (fieldRow cls a).2
 
 def opTy (cls : Option ClassInfo) (n : String) : Ty :=
   match cls with
@@ -176,7 +180,7 @@ def typeOf (c : TCtx) (env : Env) (sel : Option String) : Expr → Ty
   | .icall h n _ => opTy (tyClass c (typeOf c env sel h)) n
 
 /-- the R801 subtype the prebuilder instantiates for the value of an expression -/
-def kindOf (c : TCtx) (env : Env) : Expr → String
+def kindOf (c : TCtx) (env : Env) (sel : Option String) : Expr → String
   | .int _ => "V_LIN"
   | .real _ => "V_LRL"
   | .str _ => "V_LST"
@@ -192,7 +196,10 @@ def kindOf (c : TCtx) (env : Env) : Expr → String
   | .self => "V_IRF"
   | .selected => "V_SLR"
   | .param _ => "V_PVL"
-  | .field _ _ => "V_AVL"
+  | .field h a =>
+    match h with
+    | .selected => (fieldRow (selClass c sel) a).1
+    | _ => (fieldRow (tyClass c (typeOf c env sel h)) a).1
   | .index _ _ => "V_AER"
   | .un _ _ => "V_UNY"
   | .bin _ _ _ => "V_BIN"
@@ -212,17 +219,17 @@ mutual
   /-- the values of one expression in the prebuilder's creation order (own value after the operands; an
       invocation's own value before its parameters, which are visited last to first) -/
   def walkExpr (c : TCtx) (env : Env) (sel : Option String) : Expr → List Row
-    | .field h a => walkExpr c env sel h ++ [(kindOf c env (.field h a), typeOf c env sel (.field h a))]
+    | .field h a => walkExpr c env sel h ++ [(kindOf c env sel (.field h a), typeOf c env sel (.field h a))]
     | .index h i => walkExpr c env sel h ++ walkExpr c env sel i ++
-        [(kindOf c env (.index h i), typeOf c env sel (.index h i))]
-    | .un op e => walkExpr c env sel e ++ [(kindOf c env (.un op e), typeOf c env sel (.un op e))]
+        [(kindOf c env sel (.index h i), typeOf c env sel (.index h i))]
+    | .un op e => walkExpr c env sel e ++ [(kindOf c env sel (.un op e), typeOf c env sel (.un op e))]
     | .bin l op r => walkExpr c env sel l ++ walkExpr c env sel r ++
-        [(kindOf c env (.bin l op r), typeOf c env sel (.bin l op r))]
-    | .call k nsp n ps => (kindOf c env (.call k nsp n ps), typeOf c env sel (.call k nsp n ps)) ::
+        [(kindOf c env sel (.bin l op r), typeOf c env sel (.bin l op r))]
+    | .call k nsp n ps => (kindOf c env sel (.call k nsp n ps), typeOf c env sel (.call k nsp n ps)) ::
         walkParamsRev c env sel ps
     | .icall h n ps => walkExpr c env sel h ++
-        ((kindOf c env (.icall h n ps), typeOf c env sel (.icall h n ps)) :: walkParamsRev c env sel ps)
-    | e => [(kindOf c env e, typeOf c env sel e)]
+        ((kindOf c env sel (.icall h n ps), typeOf c env sel (.icall h n ps)) :: walkParamsRev c env sel ps)
+    | e => [(kindOf c env sel e, typeOf c env sel e)]
   /-- `for child in reversed(node.children)`: the last parameter's values first -/
   def walkParamsRev (c : TCtx) (env : Env) (sel : Option String) : Params → List Row
     | .nil => []
